@@ -1826,12 +1826,111 @@ def rule_const_host(repo):
     return r
 
 
+ASTH = 'pymtl3/dsl/AstHelper.py'
+
+
+def rule_op_record(repo):
+    """The operator check of extract_obj_from_names judges the operator RECORDED with each written name; the recorder
+    (DetectReadsWritesCalls) must therefore record the operator of the very statement that performs the store."""
+    r = RuleResult('R-C09-oprecord', "every written name is recorded with the operator of the statement that stores it: `=` targets "
+                                     "are visited with current_op None, augmented targets with that statement's operator, in every "
+                                     "statement position (nested bodies, after an earlier augmented assignment)")
+    m = repo.mod(ASTH)
+    CL = 'DetectReadsWritesCalls'
+    cls = m.get_class(CL)
+    methods = {}
+    for mm, c in reversed(repo.mro(m, cls)):
+        for st in mm._defs_in(c.body):
+            if isinstance(st, ast.FunctionDef):
+                methods[st.name] = (mm, c, st)
+    TOP = '<stale operator of an earlier statement>'
+
+    def join(a, b):
+        return a if a == b else TOP
+
+    def run(fn, entry):
+        """-> (exit state, [(state, visited expression text)])"""
+        me = fn.args.args[0].arg
+        seen = []
+
+        def block(stmts, st):
+            for x in stmts:
+                if isinstance(x, ast.Assign) and len(x.targets) == 1 and norm(x.targets[0]) == f"{me}.current_op":
+                    st = 'None' if norm(x.value) == 'None' else norm(x.value)
+                    continue
+                if isinstance(x, (ast.For, ast.While)):
+                    s1 = block(x.body, st)
+                    s2 = block(x.body, join(st, s1))
+                    st = block(x.orelse, join(st, join(s1, s2)))
+                    continue
+                if isinstance(x, ast.If):
+                    st = join(block(x.body, st), block(x.orelse, st))
+                    continue
+                if isinstance(x, (ast.With, ast.Try)):
+                    raise AnalysisError(f"{ASTH}:{CL}.{fn.name}: with/try around operator bookkeeping is outside the model")
+                for c in ast.walk(x):
+                    if isinstance(c, ast.Call) and norm(c.func) in (f"{me}.visit", f"{me}.generic_visit") and c.args:
+                        seen.append((st, norm(c.args[0])))
+                    if isinstance(c, (ast.Attribute,)) and isinstance(c.ctx, ast.Store) and norm(c) == f"{me}.current_op":
+                        raise AnalysisError(f"{ASTH}:{CL}.{fn.name}: current_op stored in an unmodelled statement form")
+                if isinstance(x, ast.Return):
+                    break
+            return st
+        return block(fn.body, entry), seen
+
+    writers = [n for n, (_, _, f) in methods.items()
+               if any(isinstance(a, ast.Attribute) and isinstance(a.ctx, ast.Store) and a.attr == 'current_op' for a in ast.walk(f))]
+    if 'visit_AugAssign' not in methods or 'enter' not in methods:
+        raise AnalysisError(f"anchor vanished: {CL}.visit_AugAssign / enter")
+    # the state in which an arbitrary visit_* method starts: None after enter(), joined with what every writer leaves behind
+    ent_exit, ent_seen = run(methods['enter'][2], TOP)
+    entry = ent_seen[-1][0] if ent_seen else TOP          # state when enter() starts the traversal
+    for _ in range(3):
+        nxt = entry
+        for n in writers:
+            if n.startswith('visit_'):
+                nxt = join(nxt, run(methods[n][2], entry)[0])
+        if nxt == entry:
+            break
+        entry = nxt
+    r.evaluations += len(writers) + 1
+    fq = f"{CL}.enter"
+    (r.ok if entry == 'None' else r.bad)(m, fq, f"operator state at the start of every visit_* method = {entry}",
+                                         *([] if entry == 'None' else ["a visit_* method leaves the operator of its statement behind (or enter() "
+                                                                       "does not reset it): later statements in the same body inherit it", methods['visit_AugAssign'][2].lineno]))
+    # `=` targets
+    if 'visit_Assign' in methods:
+        f = methods['visit_Assign'][2]
+        _, seen = run(f, entry)
+        stores = [(st, t) for st, t in seen if not t.endswith('.value')]
+        bad = [t for st, t in stores if st != 'None']
+        (r.ok if stores and not bad else r.bad)(m, f"{CL}.visit_Assign", f"`=` targets visited with operator {sorted({st for st, _ in stores})}",
+                                                *([] if stores and not bad else [f"a plain `=` store is recorded with {stores[0][0] if stores else 'nothing'}: "
+                                                                                "after an earlier `@=` / `<<=` in the same body the illegal `=` passes the operator check", f.lineno]))
+    else:
+        # generic_visit reaches the targets with the entry state
+        (r.ok if entry == 'None' else r.bad)(m, CL, "`=` targets reached through generic_visit with operator " + entry,
+                                             *([] if entry == 'None' else ["plain `=` stores inherit a stale operator", cls.lineno]))
+    f = methods['visit_AugAssign'][2]
+    node = f.args.args[1].arg
+    _, seen = run(f, entry)
+    tgt = [(st, t) for st, t in seen if t == f"{node}.target"]
+    oth = [(st, t) for st, t in seen if t != f"{node}.target"]
+    ok = len(tgt) == 1 and tgt[0][0] == f"{node}.op"
+    (r.ok if ok else r.bad)(m, f"{CL}.visit_AugAssign", f"augmented target visited with operator {[st for st, _ in tgt]}",
+                            *([] if ok else [f"the target of `x op= y` must be recorded with {node}.op", f.lineno]))
+    r.require_floor(3)
+    return r
+
+
 from rules.c02 import rule_funcfold   # noqa: E402  (a writer hidden in a nested helper must be attributed to the block: shared with C02)
 from rules.c02 import rule_cache_scope   # noqa: E402  (read/write sets judged by the checks must not be stale cache entries of another lambda body)
+from rules.c02 import rule_visitor   # noqa: E402  (every statement position that can hold a store -- for/while else, with, try -- is visited, so no driver is invisible to the checks)
 from rules.c08 import rule_ancestors   # noqa: E402  (every signal ancestor of a written object is seeded as a writer: second drivers on a struct are seen)
 
 RULES = [rule_overlap, rule_slicekey, rule_pipeline, rule_mw_guard, rule_mw_cover, rule_porttable, rule_optable,
-         rule_nowriter, rule_loop, rule_raise_resolves, rule_const_host, rule_funcfold, rule_cache_scope, rule_ancestors]
+         rule_nowriter, rule_loop, rule_raise_resolves, rule_const_host, rule_funcfold, rule_cache_scope, rule_ancestors,
+         rule_op_record, rule_visitor]
 
 
 # ---------------------------------------------------------------------------
@@ -1841,6 +1940,11 @@ def _m(name, file, old, new, rule=None, count=1):
 
 
 MUTANTS = [
+    _m('oprecord-no-reset', ASTH, "    self.visit( node.target )\n    self.current_op = None\n", "    self.visit( node.target )\n", 'R-C09-oprecord', count='first'),
+    _m('oprecord-reset-before-target', ASTH, "    self.current_op = node.op\n    self.visit( node.target )\n    self.current_op = None\n",
+       "    self.current_op = node.op\n    self.current_op = None\n    self.visit( node.target )\n", 'R-C09-oprecord'),
+    _m('oprecord-enter-no-reset', ASTH, "    self.calls = calls\n    self.current_op = None\n", "    self.calls = calls\n", 'R-C09-oprecord'),
+    _m('visitor-for-else-skipped', ASTH, "    for stmt in node.orelse:\n      self.visit( stmt )\n", "", 'R-C02-visitor', count='first'),
     _m('const-parent-is-host', L3, "    o2._dsl.parent_obj = s\n    s._dsl.consts.add( o2 )", "    o2._dsl.parent_obj = host\n    s._dsl.consts.add( o2 )", 'R-C09-const-host'),
     _m('funcfold-wrong-func', L2, "            s._dsl.all_upblk_writes[ blk ] |= m._dsl.func_writes[u]", "            s._dsl.all_upblk_writes[ blk ] |= m._dsl.func_writes[call]", 'R-C02-funcfold'),
     # --- R-overlap
